@@ -276,6 +276,7 @@ def property_generators(P):
         gens += a.get("replay", [])
     if P.get("witness"):
         gens.append(P["witness"])
+    gens += P.get("extra_generators", [])
     return list(dict.fromkeys(gens))
 
 
